@@ -23,7 +23,8 @@ enum RetryError {
     // bool marks whether the Subscription error is permanent or not
     Subscription(String, bool),
     Unreachable,
-    Misbehaving(MisbehaviorProof),
+    // The proof is missing if the tower had already been flagged when the retrier got to it
+    Misbehaving(Option<MisbehaviorProof>),
     Abandoned,
 }
 
@@ -401,12 +402,15 @@ impl Retrier {
                                 .unwrap()
                                 .set_tower_status(self.tower_id, TowerStatus::SubscriptionError)
                         }
-                        RetryError::Misbehaving(p) => {
+                        RetryError::Misbehaving(Some(p)) => {
                             log::warn!("Cannot recover known tower_id from the appointment receipt. Flagging tower as misbehaving");
                             self.wt_client
                                 .lock()
                                 .unwrap()
                                 .flag_misbehaving_tower(self.tower_id, p);
+                        }
+                        RetryError::Misbehaving(None) => {
+                            log::info!("Skipping retrying misbehaving tower {}", self.tower_id)
                         }
                         RetryError::Abandoned => {
                             log::info!("Skipping retrying abandoned tower {}", self.tower_id)
@@ -483,6 +487,15 @@ impl Retrier {
                 // already, and removing the pending link once more would delete data held for other towers.
                 let appointment = {
                     let wt_client = self.wt_client.lock().unwrap();
+                    // The tower may have been proven misbehaving (by the reply to a request that was in flight) since
+                    // this retrier was queued, or while it was sending. Nothing is sent to it from then on.
+                    if wt_client
+                        .towers
+                        .get(&tower_id)
+                        .map_or(false, |t| t.status.is_misbehaving())
+                    {
+                        return Err(Error::permanent(RetryError::Misbehaving(None)));
+                    }
                     if wt_client
                         .towers
                         .get(&tower_id)
@@ -568,7 +581,7 @@ impl Retrier {
                                 }
                             },
                             AddAppointmentError::SignatureError(proof) => {
-                                return Err(Error::permanent(RetryError::Misbehaving(proof)));
+                                return Err(Error::permanent(RetryError::Misbehaving(Some(proof))));
                             }
                         }
                     }
